@@ -55,6 +55,7 @@ def _case(draw, fmt, n_min=1, n_max=4):
     m = draw(gen.eam_model("fs", n_min, n_max, depth=1, pycallables=(route != "potable")))
     m["route"] = route
     m["format"] = fmt
+    m["int_zero"] = draw(st.integers(0, 2)) == 0      # Python callables returning the int 0 where they vanish
     g = m["grid"]
     if g["nr"] < 4:
         g["nr"] = 4 + g["nr"]
@@ -319,7 +320,9 @@ def check_case(m):
         if route == "potable":
             out = libroute.write_text(libroute.read_text(ctx))
         else:
-            out, _ = _write_api(m, fmt, route, eamtab.api_objects(m)[:2])
+            out, _ = _write_api(m, fmt, route, eamtab.api_objects(m, int_zero=bool(m.get("int_zero")))[:2])
+            if m.get("int_zero"):
+                cls.append("int_typed_zeros")
     except Exception as e:
         return {"v": [("write:exception:%s@%s" % (type(e).__name__, libroute.innermost_atsim_frame(e)), "%r\n%s" % (e, ctx))],
                 "cls": cls, "nt": False}
